@@ -250,7 +250,7 @@ func runFRTSwap(t *testing.T, sc *FRTScenario, ch sim.Chooser) []sim.Ev {
 	key := fmt.Sprintf("/v/frtswap-%d", sc.Seed)
 	rank, byPeer := e.ranks(key)
 	add("Reset", "kind", "swap", "K", sc.K, "limit", sc.Limit, "n", len(sc.Peers), "groups", frtGroupsOf(sc), "tablesize", len(e.d.Stat()),
-		"rankof", byPeer, "a", sc.A, "b", sc.B, "ts", 0)
+		"rankof", byPeer, "a", sim.Ints(sc.A), "b", sim.Ints(sc.B), "ts", 0)
 	gate := &sim.Gate{}
 	armed := true
 	fullrtSetHook(func(point string) {
